@@ -833,7 +833,7 @@ class Gen:
                 xs.append(F(hi, 2)); const = -b0
             m.con(None, None, lin, ('n', const))
             m.cons[-1]['compl'] = (z, 3)
-            m.has_sos = True                 # (the NL-level evaluator knows nothing about complementarity either)
+            m.has_compl = True               # handled by the oracle's own complementarity rule (compl_verdict)
             self.hit('compl:%d' % t)
         if self.profile.get('sos') and r.chance(*self.profile.get('p_sos', (1, 3))):
             # an SOS1/SOS2 set over fresh non-negative variables (.sosno/.ref suffixes); planted point respects it
@@ -1032,6 +1032,32 @@ def nl_items(m, xo):
 
 def int_dists(m, xo):
     return [(j, abs(xo[j] - F(cround(float(xo[j]))))) for j, v in enumerate(m.vars) if v['int']]
+
+
+def compl_verdict(m, xo, feastol):
+    """`body complements z` (z in [lb,ub]): z at its lower bound needs body >= 0, at its upper bound body <= 0, strictly
+    inside body = 0.  Decided only with margins (z exactly on a bound or at least 1/8 inside; |body| 0 or at least 1/8), so
+    that any reading of the tolerance agrees.  Returns the list of violated rows, or None if undecidable."""
+    bad = []
+    for i, c in enumerate(m.cons):
+        if not c.get('compl'):
+            continue
+        j = c['compl'][0]
+        z, lb, ub = F(xo[j]), F(m.vars[j]['lb']), F(m.vars[j]['ub'])
+        body = m.con_body(c, xo)
+        if z == lb:
+            amount = -body
+        elif z == ub:
+            amount = body
+        elif lb + F(1, 8) <= z <= ub - F(1, 8):
+            amount = abs(body)
+        else:
+            return None
+        if amount >= F(1, 8) and amount > 2 * feastol:
+            bad.append('compl row %d (z=%s body=%s)' % (i, rstr(z), rstr(body)))
+        elif amount > 0:
+            return None
+    return bad
 
 
 def nl_verdict_exact(m, xo, feastol, feastolrel, inttol):
@@ -1365,6 +1391,25 @@ def gen_points(rng, m, xs_model, flat, opts):
             continue
         pts.append({'family': 'aux-flip', 'xs': x, 'objv': [b_.val(x) for b_ in flat.objbodies], 'consistent': False,
                     'objexact': True, 'flip': {'var': r, 'truth': base[r], 'ctx': ctx, 'name': it['name']}})
+    # complementarity rows: complementing variable at lb / at ub / strictly inside  x  expression negative / zero / positive
+    p2 = (F(1), F(-1), F(2), F(-2), F(1, 2), F(-1, 2))
+    for ci, c in enumerate(m.cons):
+        if not c.get('compl'):
+            continue
+        zj = c['compl'][0]
+        movable = [j for j in cont if j in c['lin'] and c['lin'][j] in p2 and j != zj]
+        if not movable:
+            continue
+        lbz, ubz = F(m.vars[zj]['lb']), F(m.vars[zj]['ub'])
+        combos = [(zv, bt) for zv in (lbz, ubz, (lbz + ubz) / 2, lbz + F(1, 4)) for bt in (F(-1, 2), F(0), F(1, 2), F(-2), F(1, 4))]
+        for _ in range(6):
+            zv, bt = rng.choice(combos)
+            j = rng.choice(movable)
+            xm = list(xs_model)
+            xm[zj] = zv
+            b = m.con_body(c, xm)
+            xm[j] = xm[j] + (bt - b) / F(c['lin'][j])
+            add('compl', [F(xm[m.perm[i2]]) for i2 in range(nv)])
     # wrong / missing objective value
     if flat.objbodies:
         add('obj-off', list(x0), objmode='off')
@@ -1421,7 +1466,7 @@ def oracle(c):
         return None
     if objsel and c.get('objv') is None:
         pass          # no objective values: nothing to compare
-    linear = c['profile'] == 'linear'
+    linear = c['profile'] in ('linear', 'f_compl')
     if linear:
         # flattening is the identity: exact statement; selection: variables by bit 1, constraints by bits 2|8
         items = nl_items(m, xo)
@@ -1430,6 +1475,14 @@ def oracle(c):
         badv = [w for viol, ref, w in items if w[0] in 'lu' and viol > feastol and (ref == 0 or viol / abs(ref) > feastolrel)]
         badc = [w for viol, ref, w in items if w[0] == 'c' and viol > feastol and (ref == 0 or viol / abs(ref) > feastolrel)]
         badi = [(j, d) for j, d in int_dists(m, xo) if d > inttol]
+        if getattr(m, 'has_compl', False):
+            if (real | ideal) & (4 | 8):
+                return None              # converted complementarity rows leave arbitrary auxiliary values in those classes
+            csel = bool((real | ideal) & 2)
+            cv = compl_verdict(m, xo, feastol)
+            if cv is None:
+                return None
+            badc += cv
         if (vsel and badv) or (csel and badc):
             return {'expect': True, 'kind': 'violated', 'detail': (badv if vsel else []) + (badc if csel else [])}
         if vsel and badi:
@@ -1644,7 +1697,7 @@ def proof_stage(ck):
     return ok, failing
 
 
-EXPECT_THEOREMS = 48
+EXPECT_THEOREMS = 51
 
 
 def run(ck):
@@ -1750,6 +1803,10 @@ def run(ck):
                         # definitions not ordered by index (e.g. a PL result redefined over lambda variables): the model's
                         # forward sweep does not apply, so mostly realistic-only modes (the rest is counted 'unordered')
                         o['mode'] = (o.get('mode', 515) & 31) or 3
+                    if p['family'] == 'compl':
+                        o['mode'] = rng.choice([3, 2, 3, 19, 66, 99, 515, 1023 - 12 - 384])
+                        if o.get('feastol', F(0)) > F(1, 16):
+                            o['feastol'] = F(1, 64)
                     if p['family'] == 'aux-flip':
                         o['mode'] = rng.choice([3, 3, 2, 19, 515 & 3])
                         o['feastolrel'] = F(0)
@@ -1789,7 +1846,7 @@ def run(ck):
         batches.append(learn + cases)
     stats['dropped_inexact_points'] = dropped_inexact[0]
     tl, tc = transc_cases(rng, R)
-    for c in tl + tc:
+    for c in tl + tc + prec_cases(rng, R):
         evaluate_transc(ck, c, stats, hist, oracle_bad)
     for batch in batches:
         for c in batch:
@@ -1884,6 +1941,91 @@ def transc_cases(rng, R):
     return learn, cases
 
 
+# ----------------------------------------------------------------------------------------------- sol:chk:prec / sol:chk:round (decimal oracle)
+def dec_round_sig(v, n):
+    """v (Fraction) rounded to n significant decimal digits, half away from zero, exactly"""
+    if v == 0:
+        return F(0)
+    a = abs(v)
+    e = 0
+    while F(10) ** e < a:
+        e += 1
+    while F(10) ** (e - 1) >= a:
+        e -= 1                      # 10^(e-1) < |v| <= 10^e
+    f = F(10) ** (n - e)
+    t = a * f
+    r = F(math.floor(t + F(1, 2))) / f
+    return r if v > 0 else -r
+
+
+def dec_round_dec(v, n):
+    f = F(10) ** n
+    t = abs(v) * f
+    r = F(math.floor(t + F(1, 2))) / f
+    return r if v >= 0 else -r
+
+
+def prec_cases(rng, R):
+    """points whose verdict hinges on the last digit kept by sol:chk:prec=n (n significant digits) or sol:chk:round=n
+    (n decimals), for values of magnitude below 1, between 1 and 10, and above 10.  Model: x - y <= t, x + y <= 50, w <= u
+    (x, y in [0,40], w in [0,u]).  The expected verdict is computed in exact decimal arithmetic from the correctly rounded
+    point; margins are at least 2e-5, tolerances the defaults (1e-6).  Decimal data are not dyadic, so these runs are
+    judged by the oracle only (no Lean correspondence)."""
+    cases = []
+    for k in range(28):
+        use_prec = k % 4 != 3
+        n = rng.choice([2, 3, 4])
+        mag = rng.choice([-1, -1, -1, 0, 1]) if use_prec else 0       # decimal exponent of the leading digit
+        # value with n+1 significant digits (prec) / n+1 decimals (round); last digit decides the direction, never 5
+        last = rng.choice([1, 2, 3, 4, 6, 7, 8, 9])
+        if use_prec:
+            lead = rng.rint(10 ** (n - 1), 10 ** n - 2)
+            v = F(lead * 10 + last, 10 ** (n - mag))                  # e.g. n=3, mag=-1: 0.dddd
+            r = dec_round_sig(v, n)
+            other = dec_round_sig(v, n - 1)                           # what a one-digit-short rounding would give
+        else:
+            v = F(rng.rint(1, 9 * 10 ** n) * 10 + last, 10 ** (n + 1))
+            r = dec_round_dec(v, n)
+            other = dec_round_dec(v, n - 1)
+        if other == r:
+            continue
+        which = rng.below(2)
+        m = nlgen.Model()
+        m.has_sos = False
+        X = m.var(0, 200, False, 'x'); Y = m.var(0, 200, False, 'y')
+        y = F(rng.rint(1, 9), 2) if v > F(1, 2) else F(0)
+        if which == 0:
+            # row x - y <= t with t strictly between the two candidate roundings
+            t = (r + other) / 2 - y
+            m.con(None, t, {X: 1, Y: -1})
+            m.con(None, 500, {X: 1, Y: 1})
+            xs = [v, y]
+            viol = (r - y) - t                      # > 0: the correctly rounded point violates the row
+        else:
+            u = (r + other) / 2
+            W = m.var(0, u, False, 'w')
+            m.con(None, 500, {X: 1, Y: 1})
+            m.con(None, 600, {X: 1, Y: 1, W: 1})
+            xs = [F(1), F(1, 2), v]
+            viol = r - u
+        if abs(viol) < F(2, 10 ** 5):
+            continue
+        stub = R.write_model(m, 'pr%02d' % k)
+        opt = {'mode': rng.choice([3, 3, 1 if which else 2, 3]), 'fail': rng.chance(1, 2)}
+        opt['prec' if use_prec else 'round'] = n
+        x = [xs[m.perm[i]] for i in range(len(m.vars))]
+        if opt['mode'] == 1 and which == 0 or opt['mode'] == 2 and which == 1:
+            opt['mode'] = 3
+        cases.append({'id': 820000 + k, 'stub': stub, 'm': m, 'profile': 'prec', 'accept': None, 'base_opts': [], 'opts': opt, 'code': 0,
+                      'family': 'prec-digit' if use_prec else 'round-digit', 'xs': x, 'objv': None, 'consistent': False,
+                      'tname': ('prec' if use_prec else 'round') + ('<1' if v < 1 else '>=1'), 'texpect': viol > 0,
+                      'detail': 'value %s, %s=%d: correctly rounded %s (one digit short: %s), %s' % (
+                          float(v), 'prec' if use_prec else 'round', n, float(r), float(other),
+                          'row exceeded by %s' % float(viol) if viol > 0 else 'holds with slack %s' % float(-viol))})
+    R.run_cases(cases)
+    return cases
+
+
 def evaluate_transc(ck, c, stats, hist, oracle_bad):
     stats['runs'] += 1
     hist['family'][c['family']] = hist['family'].get(c['family'], 0) + 1
@@ -1900,7 +2042,8 @@ def evaluate_transc(ck, c, stats, hist, oracle_bad):
     stats['float_oracle'] = stats.get('float_oracle', 0) + 1
     hist['oracle_kind']['transc:' + c['tname']] = hist['oracle_kind'].get('transc:' + c['tname'], 0) + 1
     if has != c['texpect']:
-        oracle_bad.append((c, {'expect': c['texpect'], 'kind': 'transc-' + c['tname'], 'detail': c['family']}, obs))
+        kind = ('digits-' if c['profile'] == 'prec' else 'transc-') + c['tname']
+        oracle_bad.append((c, {'expect': c['texpect'], 'kind': kind, 'detail': c.get('detail', c['family'])}, obs))
     elif f.chk['fail'] and (obs['code'] == 150) != has:
         oracle_bad.append((c, {'expect': has, 'kind': 'fail-code', 'detail': 'code %s with report=%s' % (obs['code'], has)}, obs))
 
